@@ -21,13 +21,14 @@ import (
 // ---------------------------------------------------------------- (a) twin run
 
 type TOp struct {
-	K       string  `json:"k"` // append, bad, del, get
-	Entries []ESpec `json:"e,omitempty"`
-	Foreign int     `json:"foreign,omitempty"` // 1-based entry that is a checkpoint carrying foreign Extensions
-	FLen    int     `json:"flen,omitempty"`
-	Bad     string  `json:"bad,omitempty"`
-	A       int     `json:"a,omitempty"` // del/get position offset
-	Rel     string  `json:"rel,omitempty"`
+	K        string  `json:"k"` // append, bad, del, get
+	Entries  []ESpec `json:"e,omitempty"`
+	Foreign  int     `json:"foreign,omitempty"` // 1-based entry that is a checkpoint carrying foreign Extensions
+	FLen     int     `json:"flen,omitempty"`
+	Bad      string  `json:"bad,omitempty"`
+	EmptyExt bool    `json:"emptyExt,omitempty"` // checkpoints carry Extensions = []byte{} (empty, non-nil)
+	A        int     `json:"a,omitempty"`        // del/get position offset
+	Rel      string  `json:"rel,omitempty"`
 }
 
 type TwinCase struct {
@@ -56,6 +57,7 @@ func genTwin(t *rapid.T) TwinCase {
 				op.Foreign = rapid.IntRange(1, m).Draw(t, "fpos")
 				op.FLen = rapid.SampledFrom([]int{1, 5, 23, 24, 30}).Draw(t, "flen")
 			}
+			op.EmptyExt = rapid.IntRange(0, 3).Draw(t, "emptyExt") == 0
 			c.Ops = append(c.Ops, op)
 		case k < 58:
 			op := TOp{K: "bad", Bad: rapid.SampledFrom([]string{"gap", "overlap"}).Draw(t, "bad")}
@@ -126,6 +128,12 @@ func runTwin(c TwinCase) (res common.Result) {
 						l.Extensions[k] = byte(0x11 + k)
 					}
 					foreign = true
+				}
+				if op.K == "append" && op.EmptyExt && len(l.Extensions) == 0 {
+					if cp, _ := isCheckpoint(l); cp {
+						l.Extensions = []byte{}
+						cls["checkpoint-empty-nonnil-extensions"] = true
+					}
 				}
 				a = append(a, l)
 				b = append(b, refmodel.CloneLog(l))
@@ -260,7 +268,9 @@ type BOp struct {
 }
 
 type BlockCase struct {
-	Ops []BOp `json:"ops"`
+	Ops      []BOp `json:"ops"`
+	Follower bool  `json:"follower,omitempty"` // the blocked node is a follower fed by a leader's post-store entries
+	Corrupt  []int `json:"corrupt,omitempty"`  // indexes (mod entry count) altered in flight on their way to the follower
 }
 
 func genBlock(t *rapid.T) BlockCase {
@@ -276,6 +286,12 @@ func genBlock(t *rapid.T) BlockCase {
 			c.Ops = append(c.Ops, op)
 		} else {
 			c.Ops = append(c.Ops, BOp{K: "release", N: rapid.IntRange(1, 3).Draw(t, "rn")})
+		}
+	}
+	c.Follower = rapid.Bool().Draw(t, "follower")
+	if c.Follower {
+		for i := 0; i < rapid.IntRange(0, 4).Draw(t, "ncorrupt"); i++ {
+			c.Corrupt = append(c.Corrupt, rapid.IntRange(0, 200).Draw(t, "corrupt"))
 		}
 	}
 	return c
@@ -300,6 +316,23 @@ func runBlock(c BlockCase) (res common.Result) {
 	var triggered []verifier.LogRange
 	next := uint64(1)
 	cpCount := 0
+	// follower mode: a leader (never blocked) stamps the checkpoints first
+	var leader *verifier.LogStore
+	if c.Follower {
+		leader = verifier.NewLogStore(raft.NewInmemStore(), isCheckpoint, func(verifier.VerificationReport) {}, metrics.NewAtomicCollector(verifier.MetricDefinitions))
+		defer leader.Close()
+	}
+	corrupt := map[uint64]bool{}
+	total := 0
+	for _, op := range c.Ops {
+		total += len(op.CPs)
+	}
+	for _, x := range c.Corrupt {
+		if total > 0 {
+			corrupt[uint64(1+x%total)] = true
+		}
+	}
+	corrupted := false
 	for i, op := range c.Ops {
 		switch op.K {
 		case "append":
@@ -307,6 +340,22 @@ func runBlock(c BlockCase) (res common.Result) {
 			for _, cp := range op.CPs {
 				logs = append(logs, ESpec{DataLen: 4, Seed: uint8(next), CP: cp}.mk(next, 1))
 				next++
+			}
+			if leader != nil {
+				if err := leader.StoreLogs(logs); err != nil {
+					res.Fail = common.Failf("harness", "leader store: %v", err)
+					close(tokens)
+					return
+				}
+				sent := make([]*raft.Log, len(logs))
+				for k, l := range logs {
+					sent[k] = refmodel.CloneLog(l)
+					if cp, _ := isCheckpoint(l); !cp && corrupt[l.Index] {
+						sent[k].Data = append(append([]byte{}, l.Data...), 0xEE) // altered in flight
+						corrupted = true
+					}
+				}
+				logs = sent
 			}
 			done := make(chan error, 1)
 			go func() { done <- v.StoreLogs(logs) }()
@@ -399,8 +448,8 @@ func runBlock(c BlockCase) (res common.Result) {
 			res.Fail = common.Failf("report-unknown-range", "delivered report #%d for %v is not one of the remaining triggered ranges %v (order/duplication)", di, r.Range, triggered)
 			return
 		}
-		if r.Err != nil {
-			res.Fail = common.Failf("false-alarm", "clean single-node history: report %v carries Err=%v", r.Range, r.Err)
+		if r.Err != nil && !corrupted {
+			res.Fail = common.Failf("false-alarm", "clean history: report %v carries Err=%v", r.Range, r.Err)
 			return
 		}
 		if prev != nil && dropsBetween > 0 {
@@ -418,6 +467,12 @@ func runBlock(c BlockCase) (res common.Result) {
 	}
 	if afterDrop {
 		res.Classes = append(res.Classes, "delivery-after-drop")
+	}
+	if c.Follower {
+		res.Classes = append(res.Classes, "blocked-follower")
+		if corrupted {
+			res.Classes = append(res.Classes, "blocked-follower-with-inflight-corruption")
+		}
 	}
 	res.NonTrivial = s["dropped_reports"] > 0 && afterDrop
 	res.Note = fmt.Sprintf("%d checkpoints, %d delivered, %d dropped", cpCount, len(delivered), s["dropped_reports"])
